@@ -1285,11 +1285,16 @@ class World:
         it = self.interaction(iid)
         return it.get('resp_pub') if role == 'resp' else it.get('req_pub')
 
-    def app_close(self, ep):
+    def app_close(self, ep, steps=None):
+        """steps = k: only k loop callbacks run, so that what the application does next lands inside the close()"""
         self.rec.log(ep, 'app_close')
         t = self.loop.create_task(self.eps[ep].close())
         t.add_done_callback(lambda _t, ep=ep: self.rec.log(ep, 'app_close_returned'))
-        self.loop.run_ready()
+        if steps is None:
+            self.loop.run_ready()
+        else:
+            for _ in range(steps):
+                self.loop._one()
         return t
 
     def app_reconnect(self, steps=None):
